@@ -466,6 +466,9 @@ func TestProp(t *testing.T) {
 			if i == 0 { // always at least one array
 				ty = []*m.Type{tNums, tNums2, tBools, tStrs, tAnys, tAnys}[rapid.IntRange(0, 5).Draw(t, "arrtype")]
 			}
+			if i == 1 { // and a num
+				ty = m.TNum
+			}
 			if ty.K == m.Any {
 				n := s.fresh()
 				s.out = append(s.out, &m.Decl{Name: n, Ty: ty, Typed: true})
